@@ -19,6 +19,7 @@ func checkC19(r *Run) {
 	}
 	ruleConsoleCallerPath(r, p, "CALLERFMT")
 	ruleCallerHookPinsItsCount(r, p, "A25")
+	ruleA12Reset(r, p, "newEvent", "Event") // a recycled event starts with skipFrame 0: the previous owner's CallerSkipFrame is not carried over (C05's rule)
 	r.Floor("A25", 30)
 	if r.Tier == "thorough" {
 		if pb := r.Use("B"); pb != nil {
